@@ -329,7 +329,14 @@ func init() {
 				var live []string
 				om.Range(func(k string, _ any) error { live = append(live, k); return nil })
 				k := live[rng.Intn(len(live))]
-				switch rng.Intn(4) {
+				switch rng.Intn(6) {
+				case 4:
+					// rename of a key that is not there, onto a live key: the live key moves to the end
+					om.Replace("absent-key", k, "a")
+					edits += "A"
+				case 5:
+					om.Replace("absent-key", "fresh-"+k, "f")
+					edits += "F"
 				case 0:
 					om.Delete(k)
 					edits += "D"
